@@ -619,13 +619,77 @@ def _run_wait(case):
     return Outcome(nontrivial, klass, D)
 
 
+def _run_wait_many(case):
+    """Several callers wait on the same consumer; one frame arrives that matches all of
+    their filters: *each* waiting caller must be handed that entry (added after the seeded
+    change C16-r2m2, notify_all -> notify, which wakes only one of them)."""
+    n = case["n"]
+    f = case["frame"]
+    D = []
+    q = queue.Queue()
+    rig = Rig("direct", [case.get("id", 1)])
+    consumer = rig.consumers[0]
+    cond = _ProbeCondition(q)
+    consumer.emcy_received = cond
+    results = [None] * n
+    errors = [None] * n
+
+    def waiter(i):
+        try:
+            filt = case["filters"][i % len(case["filters"])]
+            results[i] = consumer.wait(filt, HIT_TIMEOUT)
+        except BaseException as e:  # noqa: judged below
+            errors[i] = e
+
+    ths = [threading.Thread(target=waiter, args=(i,), daemon=True) for i in range(n)]
+    for t in ths:
+        t.start()
+    entered = 0
+    try:
+        while entered < n:
+            q.get(timeout=GUARD)
+            entered += 1
+    except queue.Empty:
+        D.append(Discrepancy("C16/wait/hang", f"only {entered} of {n} callers blocked in wait() within {GUARD}s"))
+        return Outcome(True, "wait-many", D)
+    with cond:      # all n callers are registered as waiters now
+        pass
+    data = bytes(f["data"])
+    rig.raw_frame(0, ref_encode(f["code"], f["reg"], data), 2001)
+    for t in ths:
+        t.join(HIT_TIMEOUT + GUARD)
+    want = (f["code"], f["reg"], data, 2001)
+    for i in range(n):
+        if errors[i] is not None:
+            D.append(Discrepancy("C16/wait/raises", f"caller {i} of {n}: {type(errors[i]).__name__}: {errors[i]}"))
+            break
+        got = None if results[i] is None else _fields(results[i])
+        if got != want:
+            D.append(Discrepancy("C16/wait/concurrent-caller-not-served",
+                                 f"{n} callers waited (filters {case['filters']}), frame {_show(want)} arrived: "
+                                 f"caller {i} got {_show(got) if got else None}"))
+            break
+    return Outcome(True, f"wait-many/{n}", D)
+
+
 def run_case(case) -> Outcome:
     kind = case["kind"]
     if kind == "code":
         return _run_code(case)
     if kind == "wait":
         return _run_wait(case)
+    if kind == "wait_many":
+        return _run_wait_many(case)
     return _run_history(case)
+
+
+def wait_many_enum():
+    for n in (2, 3, 4):
+        for filters in ([None], [0x2310], [None, 0x2310], [0x2310, None, 0x2310]):
+            yield {"kind": "wait_many", "n": n, "filters": filters,
+                   "frame": {"code": 0x2310, "reg": 3, "data": b"\x01\x02\x03\x04\x05"}}
+        yield {"kind": "wait_many", "n": n, "filters": [0, None],
+               "frame": {"code": 0x0000, "reg": 0, "data": bytes(5)}}
 
 
 # ---- generation ------------------------------------------------------------------------
@@ -913,6 +977,7 @@ def search(ctx):
     ctx.enumerate(interleavings(6 if thorough else 4),
                   "every error/reset/near-reset interleaving up to length %d" % (6 if thorough else 4))
     ctx.enumerate(wait_enum(), "wait: 3 pre-histories x 12 feed shapes x 4 filters")
+    ctx.enumerate(wait_many_enum(), "wait: 2..4 concurrent callers x filter mixes, one matching frame")
     ctx.enumerate(roundtrips(), "producer round trip: every register x data length 0..5 x send/reset")
     ctx.enumerate(({"kind": "code", "code": c} for c in range(0x10000)),
                   "all 65536 codes: description, decode, reset classification")
